@@ -147,6 +147,23 @@ func runC39(c *eng.Ctx) {
 		if len(body.Preds) == 1 && len(body.Succs) == 1 && body.Succs[0] == body.Preds[0] && nWritesInBody == 1 {
 			hdr := body.Preds[0]
 			if iff, ok := hdr.Instrs[len(hdr.Instrs)-1].(*ssa.If); ok && hdr.Succs[0] == body {
+				// counting up: φ(0, φ+1) < target-len(enc)
+				if b, ok := iff.Cond.(*ssa.BinOp); ok && b.Op == token.LSS && isDiff(b.Y) {
+					if phi, ok := b.X.(*ssa.Phi); ok && len(phi.Edges) == 2 {
+						init, step := false, false
+						for j, e := range phi.Edges {
+							if hdr.Preds[j] == body {
+								if sb, ok := e.(*ssa.BinOp); ok && sb.Op == token.ADD && sb.X == ssa.Value(phi) && constIs(sb.Y, 1) {
+									step = true
+								}
+							} else if constIs(e, 0) {
+								init = true
+							}
+						}
+						padOK = init && step
+						padDetail = fmt.Sprintf("counting up: init=%v step=%v", init, step)
+					}
+				}
 				if b, ok := iff.Cond.(*ssa.BinOp); ok && b.Op == token.GTR && constIs(b.Y, 0) {
 					if phi, ok := b.X.(*ssa.Phi); ok && len(phi.Edges) == 2 {
 						init, step := false, false
@@ -195,6 +212,12 @@ func runC39(c *eng.Ctx) {
 			if b.Op == token.LEQ && encLen(b.X) && constIs(b.Y, target) && a.Pos {
 				over = true
 			}
+			if b.Op == token.LSS && isDiff(b.X) && constIs(b.Y, 0) && !a.Pos {
+				over = true // ¬(target − len < 0)
+			}
+			if b.Op == token.GEQ && isDiff(b.X) && constIs(b.Y, 0) && a.Pos {
+				over = true
+			}
 		}
 	}
 	c.Check("R1", "overlong-value-excluded", w[2].call.Pos(), over, "an encoded value longer than the target never reaches the builder (the padding count is non-negative)", atomsShort(gw))
@@ -208,61 +231,65 @@ func runC39(c *eng.Ctx) {
 		}
 	}
 	// rune range of the prefix test
+	// Every continuation of the prefix scan (back edge of the range loop over
+	// p0) carries a constant lower and a constant upper bound on the rune, in any
+	// of the equivalent forms ('a' <= r, r >= 'a', ¬(r < 'a'), ¬('a' > r), …).
 	lo, hi := int64(-1), int64(-1)
-	eng.EachInstr(fn, func(i ssa.Instruction) {
-		iff, ok := i.(*ssa.If)
-		if !ok {
-			return
-		}
-		b, ok := iff.Cond.(*ssa.BinOp)
-		if !ok || b.Op != token.LEQ {
-			return
-		}
-		if k, isK := eng.ConstInt64(b.X); isK && strings.Contains(eng.Render(b.Y), "range(p0)") {
-			lo = k
-		}
-		if k, isK := eng.ConstInt64(b.Y); isK && strings.Contains(eng.Render(b.X), "range(p0)") {
-			hi = k
-		}
-	})
-	// every loop continuation lies under both tests
-	rangeOK := lo >= 0 && hi >= lo
-	if rangeOK {
-		g := eng.Guards(w[0].call)
-		_ = g
-		// the back edge into the range loop comes only from the block where both tests were true
-		for _, b := range fn.Blocks {
-			if b.Comment != "rangeiter.loop" {
+	isRune := func(v ssa.Value) bool { return strings.Contains(eng.Render(v), "range(p0)") }
+	bounds := func(ga []eng.Atom) (l, h int64) {
+		l, h = -1, -1
+		for _, a := range ga {
+			bo, ok := a.V.(*ssa.BinOp)
+			if !ok {
 				continue
 			}
-			for _, p := range b.Preds {
-				if !b.Dominates(p) {
-					continue
+			kx, xC := eng.ConstInt64(bo.X)
+			ky, yC := eng.ConstInt64(bo.Y)
+			switch {
+			case xC && isRune(bo.Y): // K op r
+				switch {
+				case bo.Op == token.LEQ && a.Pos, bo.Op == token.GTR && !a.Pos:
+					l = kx
+				case bo.Op == token.LSS && a.Pos:
+					l = kx + 1
+				case bo.Op == token.GEQ && a.Pos, bo.Op == token.LSS && !a.Pos:
+					h = kx
+				case bo.Op == token.GTR && a.Pos:
+					h = kx - 1
 				}
-				ga := eng.GuardsOfBlock(p)
-				last, isIf := p.Instrs[len(p.Instrs)-1].(*ssa.If)
-				both := false
-				if isIf && p.Succs[0] == b {
-					ga = append(ga, eng.MkAtom(last.Cond, true))
-				}
-				nlo, nhi := false, false
-				for _, a := range ga {
-					if bo, ok := a.V.(*ssa.BinOp); ok && bo.Op == token.LEQ && a.Pos {
-						if constIs(bo.X, lo) {
-							nlo = true
-						}
-						if constIs(bo.Y, hi) {
-							nhi = true
-						}
-					}
-				}
-				both = nlo && nhi
-				if !both {
-					rangeOK = false
+			case yC && isRune(bo.X): // r op K
+				switch {
+				case bo.Op == token.GEQ && a.Pos, bo.Op == token.LSS && !a.Pos:
+					l = ky
+				case bo.Op == token.GTR && a.Pos:
+					l = ky + 1
+				case bo.Op == token.LEQ && a.Pos, bo.Op == token.GTR && !a.Pos:
+					h = ky
+				case bo.Op == token.LSS && a.Pos:
+					h = ky - 1
 				}
 			}
 		}
+		return
 	}
+	rangeOK := false
+	for _, b := range fn.Blocks {
+		if b.Comment != "rangeiter.loop" {
+			continue
+		}
+		rangeOK = true
+		for _, p := range b.Preds {
+			if !b.Dominates(p) {
+				continue
+			}
+			l, h := bounds(edgeGuards(p, b))
+			if l < 0 || h < l || (lo >= 0 && (l != lo || h != hi)) {
+				rangeOK = false
+			}
+			lo, hi = l, h
+		}
+	}
+	rangeOK = rangeOK && lo >= 0 && hi >= lo
 	c.Check("R1", "prefix-rune-range-enforced", fn.Pos(), rangeOK, "scanning of the prefix continues only for runes inside one constant range", fmt.Sprintf("[%d,%d]", lo, hi))
 
 	// --- R2 ---
@@ -543,7 +570,15 @@ func c39UUIDGuards(c *eng.Ctx, r *ssa.Return, g []eng.Atom, flag *ssa.Phi) {
 		case strings.Contains(a.Expr, "uuid.Parse(p0)"), strings.Contains(a.Expr, "MatchString("):
 		case a.Expr == "next(range(p0))#0" && !a.Pos:
 		case flag != nil && a.V == ssa.Value(flag) && a.Pos:
+		case a.Via != "":
+			// facts imported from a verdict helper (e.g. isUUID) are part of the UUID test
 		default:
+			// the verdict helper's own call is the UUID test when it only computes a verdict
+			if call, ok := a.V.(*ssa.Call); ok {
+				if callee := call.Call.StaticCallee(); callee != nil && eng.IsModuleFunc(callee) && len(eng.CallsNamed(callee, "github.com/google/uuid.Parse")) > 0 {
+					continue
+				}
+			}
 			extra = a.String()
 		}
 	}
